@@ -120,7 +120,7 @@ PROPS = {
         'Trusted: the accessor added under EVENTPP_VERIF sets the counter consistently (forward only, every existing generation stays <= the counter).',
         'Each evaluation is one seeded program as in C02/C10 on CallbackList with warp(k) operations at top level and inside callback scripts. Non-trivial = the plan contains a warp; distinct = distinct plan hashes.'),
 
-    'C04': seq_prop('seq_disp', [st('c04-g++', 'seq_disp', 'c04', 300000, 6000000), st('c04-clang++', 'seq_disp_clang', 'c04', 300000, 6000000)],
+    'C04': seq_prop('seq_disp', [st('c04-g++', 'seq_disp', 'c04', 300000, 6000000), st('c04-clang++', 'seq_disp_clang', 'c04', 300000, 6000000), st('c04-event-vs-argument-rewriting-filters', 'seq_filter', 'c04k', 100000, 2000000)],
         'seeded dispatcher histories over a key-type / map / prototype / ArgumentPassingMode / listener-parameter / value-category matrix against a per-event list model, the same seeds executed by a g++ build and a clang++ build (the two compilers evaluate dispatch()\'s argument expressions in opposite orders)',
         'Seeded search over histories of per-event listener management and dispatches for thirteen instantiations (int, enum class, std::string taken by value, user key with < only, user key with colliding hash and ==, getEvent policy on a field, explicit std::map policy, and two exclude-event instantiations whose getEvent policy is not the identity on the leading argument: bit-masking int ids, suffix-stripping std::string names, leading argument of the Event type and of another type; an exclude-event instantiation whose getEvent policy reads a trailing by-value std::string argument; and an EventQueue keyed by a by-value std::string in the include-event form, where a dispatch is enqueue + process; a getEvent policy that returns a reference; and a non-owning key type that refers to the std::string it was made from), with listeners whose parameter types differ from the prototype or that move from a by-value parameter, and arguments supplied as lvalues, temporaries and moved locals, in both argument-passing forms. Every listener call is compared with the model when it happens (which listener, in which order, with which argument values).',
         'No schedule or fault in this property; the only non-input dimension is the unspecified evaluation order, which the simulator cannot control and therefore samples with the two compilers present. Trusted: the per-event list model.',
